@@ -15,6 +15,8 @@ grep -v '^#' "$V/selftest/expect.tsv" | while IFS="$(printf '\t')" read -r patch
   if ! (cd "$S/repo" && patch -p1 -s < "$V/selftest/mutants/$patch"); then echo "SELFTEST-ERROR $patch does not apply"; echo x >> "$S/fail"; continue; fi
   mkdir -p "$S/verif"; rm -rf "$S/verif/replays"; cp "$V/known_findings.json" "$S/verif/" 2>/dev/null; rm -rf "$S/verif/contracts"; cp -r "$V/contracts" "$S/verif/contracts"
   out=$("$V/bin/govc" -repo "$S/repo" -verif "$S/verif" -prop "$prop" 2>&1)
+  case "$want" in standin.*) out="$out
+$(GOVC_REPO="$S/repo" GOVC_VERIF_OUT="$S/verif" "$V/standins/run.sh" "$prop" quick "$S/extra.json" 2>&1)";; esac
   if echo "$out" | grep "VIOLATION" | sed 's/[#$@]/_/g' | grep -q -- "$(echo "$want" | sed 's/[#$@]/_/g')"; then echo "selftest ok   $patch -> $want"; else echo "SELFTEST-MISS $patch expected VIOLATION matching $want"; echo "$out" | tail -3; echo x >> "$S/fail"; fi
 done
 [ -f "$S/fail" ] && exit 1
